@@ -172,5 +172,67 @@ theorem brentqLoop_spec (f : K → K) (xtol rtol : K) :
       · obtain ⟨b1, b2, b3⟩ := B hc
         exact ⟨by omega, b2, by omega⟩
 
+/-! ### brentq: the size of one step -/
+
+/-- the acceptance test of the interpolation step -/
+theorem tryCore (spre scur stry sbis delta : K) :
+    (if two * absv stry < pmin (absv spre) (three * absv sbis - delta) then (scur, stry) else (sbis, sbis)).2 = sbis ∨
+    2 * |(if two * absv stry < pmin (absv spre) (three * absv sbis - delta) then (scur, stry) else (sbis, sbis)).2|
+      < 3 * |sbis| - delta := by
+  split
+  · next hacc =>
+    right
+    simp only [two_eq, three_eq, absv_eq_abs] at hacc
+    unfold pmin at hacc
+    show 2 * |stry| < 3 * |sbis| - delta
+    split at hacc
+    · exact hacc
+    · next hmin =>
+      have := not_lt.mp hmin
+      linarith
+  · left; rfl
+
+/-- **step size of one brentq pass** (the acceptance rule of the interpolation step): in a pass that
+    does not exit (`delta ≤ |sbis|`, `delta > 0`, where `sbis = (xblk − xcur)/2`), whichever of the
+    three moves is chosen — accepted interpolation/extrapolation step, bisection, or the minimal step
+    `±delta` — the new point is at least `delta` and at most `3/4·|xblk − xcur|` away from `xcur`.
+    (That the new point lies BETWEEN `xcur` and `xblk` is not guaranteed by the code for an
+    extrapolation step, so no contraction factor for the bracket is claimed.) -/
+theorem bqStep_bounds (s : BQ K) (delta : K) (hd : 0 < delta)
+    (hne : ¬ |(s.xblk - s.xcur) / 2| < delta) :
+    let sbis := (s.xblk - s.xcur) / two
+    let xnew := bqNext s.xcur (bqTry s delta sbis).2 delta sbis
+    delta ≤ |xnew - s.xcur| ∧ |xnew - s.xcur| ≤ 3 / 4 * |s.xblk - s.xcur| := by
+  intro sbis xnew
+  have hsb : sbis = (s.xblk - s.xcur) / 2 := by simp only [sbis, two_eq]
+  have hhalf : |sbis| = |s.xblk - s.xcur| / 2 := by rw [hsb, abs_div, abs_two]
+  have hge : delta ≤ |sbis| := by rw [hsb]; exact not_lt.mp hne
+  have hw : 0 ≤ |s.xblk - s.xcur| := abs_nonneg _
+  -- the chosen scur is either sbis or an accepted stry with 2|stry| < 3|sbis| − delta
+  have hscur : (bqTry s delta sbis).2 = sbis ∨ 2 * |(bqTry s delta sbis).2| < 3 * |sbis| - delta := by
+    unfold bqTry
+    simp only
+    split
+    · exact tryCore _ _ _ _ _
+    · left; rfl
+  have hstep : xnew - s.xcur = (if delta < absv (bqTry s delta sbis).2 then (bqTry s delta sbis).2
+      else (if 0 < sbis then delta else -delta)) := by
+    simp only [xnew, bqNext]
+    split <;> ring
+  rw [hstep, absv_eq_abs]
+  split
+  · next hbig =>
+    refine ⟨hbig.le, ?_⟩
+    rcases hscur with h | h
+    · rw [h, hhalf]; linarith
+    · rw [hhalf] at h; linarith
+  · have habs : |if 0 < sbis then delta else -delta| = delta := by
+      split
+      · exact abs_of_pos hd
+      · rw [abs_neg]; exact abs_of_pos hd
+    rw [habs]
+    refine ⟨le_refl _, ?_⟩
+    rw [hhalf] at hge; linarith
+
 end
 end QE.C17
